@@ -74,6 +74,19 @@ def bindValue (p : GPat) (st : Stack) (vp : VPat) (v : Option ValueId) : R :=
       | some v' => if v' == v then (true, st) else fail st
       | none => (true, updTop (fun c => { c with vb := c.vb ++ [(k, v)] }) st)
 
+/-- `bind_value` with repair C06-F2 (/repo 9ec39fb): a *named* pattern that carries a value-level
+checker is also recorded in `value_bindings` (unless some partial match already has it), so that
+`Pattern.match` runs its checker.  `fix2 = false` is the code before the repair. -/
+def bindValue2 (fix2 : Bool) (p : GPat) (st : Stack) (vp : VPat) (v : Option ValueId) : R :=
+  let r := bindValue p st vp v
+  if fix2 && r.1 && (p.vname vp).isSome && vp.check.isSome then
+    match vp.key with
+    | some k =>
+      if (lookupVB r.2 k).isNone then (true, updTop (fun c => { c with vb := c.vb ++ [(k, v)] }) r.2)
+      else r
+    | none => r
+  else r
+
 /-- `MatchResult.bind_node` -/
 def bindNode (st : Stack) (np : NPId) (n : NodeId) : Stack :=
   updTop (fun c => { c with nodes := c.nodes ++ [n], nb := c.nb ++ [(np, n)] }) st
@@ -124,10 +137,12 @@ structure Env where
   repaired code (`return self.fail(...)`, /repo 778bd07); `false` = the code before the repair
   (`return False` without failing the match, finding C06-F1) — kept for the refutation witness. -/
   fixF1 : Bool := true
-  /-- proposed fix C06-F3 (`merge` keeps node and value bindings); `false` = the code as committed -/
-  fixF3 : Bool := false
-  /-- proposed fix C06-F8 (a clashing tag binding fails the alternative); `false` = as committed -/
-  fixF8 : Bool := false
+  /-- repair C06-F2 (/repo 9ec39fb: named patterns with a checker are recorded in `value_bindings`) -/
+  fixF2 : Bool := true
+  /-- repair C06-F3 (/repo e143b53: `merge` keeps node and value bindings); `false` = before the repair -/
+  fixF3 : Bool := true
+  /-- repair C06-F8 (/repo f949e13: a clashing tag binding fails the alternative); `false` = before -/
+  fixF8 : Bool := true
   /-- `math.isclose(host, pattern, rel_tol=…, abs_tol=…)` — an abstract relation indexed by the two
   tolerances the `Constant` pattern carries (C05 judges the numeric use). -/
   close : Tol → Tol → Int → Int → Bool
@@ -214,7 +229,7 @@ def matchValue (E : Env) (rec : NPId → NodeId → Stack → R) (vp : VPat) (v 
   match vp with
   | .any => (true, st)
   | .var id name isVar canNone check =>
-    let r := bindValue E.p st (.var id name isVar canNone check) v
+    let r := bindValue2 E.fixF2 E.p st (.var id name isVar canNone check) v
     if !r.1 then r
     else if v.isNone && !canNone then fail r.2 else r
   | .const id c =>
